@@ -14,8 +14,11 @@ LEVEL = "model_checking"
 RULE = ("the frame histories explored by the dispatcher engine of C22 "
         "(breadth-first over loop counter, <= 3 in-flight frames with index "
         "byte, writer commands and counter classes correct/wrong/zero, "
-        "output-enabled flag) for registered groups with 0-3 writer "
-        "datagrams (direct FPWR and FMMU LWR); every transition executes the "
+        "output-enabled flag switched on and off by user space at any "
+        "time) for registered groups with 0-3 writer "
+        "datagrams (direct FPWR and FMMU LWR), alone and after an earlier "
+        "group of the same master with another layout was allocated; every "
+        "transition executes the "
         "real dispatcher and group bytecode. Per transition: frames built by "
         "SterilePacket.sterile have all writer commands NOP; a pass that ran "
         "the group program with outputs enabled leaves exactly the writer "
@@ -34,6 +37,10 @@ def plan(tier, seed):
     depth = 11 if tier == "quick" else 16
     return [dict(seed=seed, layout=lay, reg="registered", depth=depth,
                  tier=tier) for lay in c22.LAYOUTS] + \
+        [dict(seed=seed, layout=lay, reg="registered", depth=depth - 2,
+              tier=tier, decoy=dec)
+         for lay, dec in (("w", "w"), ("rw", "wf"), ("wf", "rw"),
+                          ("r", "ww"))] + \
         [dict(seed=seed, sterile=True)]
 
 
